@@ -54,6 +54,10 @@ var c13classes = []c13class{
 	{"addr-mapped-zone", func(ip string, p int) string { return fmt.Sprintf(`{"ip":"::ffff:%s%%eth0","port":%d}`, ip, p) }, []string{"ip"}, "both"},
 	{"addr-trailing-dot", func(ip string, p int) string { return fmt.Sprintf(`{"ip":"%s.","port":%d}`, ip, p) }, []string{"ip"}, "both"},
 	{"addr-leading-zero", func(ip string, p int) string { return fmt.Sprintf(`{"ip":"010.1.2.3","port":%d}`, p) }, []string{"ip"}, "both"},
+	// a genuine IPv6 address: well-formed, but this scanner probes IPv4 only - whichever stage refuses it, it is one
+	// error and never a probe (least of all to the IPv4 address that its last four bytes happen to spell)
+	{"addr-ipv6", func(ip string, p int) string { return fmt.Sprintf(`{"ip":"2001:db8::a00:1","port":%d}`, p) }, []string{"ip", "mac:2001:db8::a00:1"}, "both"},
+	{"addr-ipv6-linklocal", func(ip string, p int) string { return fmt.Sprintf(`{"ip":"fe80::c0a8:1","port":%d}`, p) }, []string{"ip", "mac:fe80::c0a8:1"}, "both"},
 	// two defects in one line are still one entry: one error record (either cause may be stated)
 	{"empty-object", func(ip string, p int) string { return `{}` }, []string{"ip", "port"}, "ipport"},
 	{"both-bad", func(ip string, p int) string { return `{"ip":"10.0.0.300","port":65536}` }, []string{"ip", "port"}, "ipport"},
@@ -104,7 +108,7 @@ func c13cause(e error) string {
 		return "mac:" + s[i+1:]
 	case strings.Contains(s, "port range"):
 		return "portrange"
-	case strings.Contains(s, "invalid ip") || strings.Contains(s, "invalid address"):
+	case strings.Contains(s, "invalid ip") || strings.Contains(s, "invalid address") || strings.Contains(s, "invalid destination ipv4 address") || strings.Contains(s, "address is ipv6"):
 		return "ip"
 	case strings.Contains(s, "invalid port"):
 		return "port"
@@ -183,24 +187,49 @@ func c13match(exp c13expect, probes map[string]int, causes []string) (string, bo
 			return fmt.Sprintf("unexpected probe %s (x%d)", k, n), false
 		}
 	}
-	// errors: match single-alternative expectations first
+	// errors: a maximum matching between the expectations (each with its acceptable causes) and the error records
+	// (greedy assignment can starve a later expectation that had only one acceptable cause left)
+	es := append([][]string(nil), exp.errs...)
+	sort.SliceStable(es, func(i, j int) bool { return len(es[i]) < len(es[j]) })
+	owner := make([]int, len(causes)) // error record -> expectation
+	for k := range owner {
+		owner[k] = -1
+	}
+	var try func(e int, seen []bool) bool
+	try = func(e int, seen []bool) bool {
+		for k, c := range causes {
+			if seen[k] {
+				continue
+			}
+			fits := false
+			for _, a := range es[e] {
+				if a == c {
+					fits = true
+				}
+			}
+			if !fits {
+				continue
+			}
+			seen[k] = true
+			if owner[k] < 0 || try(owner[k], seen) {
+				owner[k] = e
+				return true
+			}
+		}
+		return false
+	}
 	have := map[string]int{}
 	for _, c := range causes {
 		have[c]++
 	}
-	es := append([][]string(nil), exp.errs...)
-	sort.SliceStable(es, func(i, j int) bool { return len(es[i]) < len(es[j]) })
-	for _, alts := range es {
-		ok := false
-		for _, a := range alts {
-			if have[a] > 0 {
-				have[a]--
-				ok = true
-				break
-			}
-		}
-		if !ok {
+	for e, alts := range es {
+		if !try(e, make([]bool, len(causes))) {
 			return fmt.Sprintf("no error record stating the cause %v (errors seen: %v)", alts, causes), false
+		}
+	}
+	for k, c := range causes {
+		if owner[k] >= 0 {
+			have[c]--
 		}
 	}
 	for k, n := range have {
@@ -360,6 +389,9 @@ func c13cases(run *vlab.Run) []*c13case {
 			if k.ModeOK != "both" && k.ModeOK != v.mode {
 				continue
 			}
+			if strings.HasPrefix(k.Name, "addr-ipv6") && (v.layer != "engine" || v.scan == "generic") {
+				continue // refused where the frame is built: only a run through the whole engine shows the error
+			}
 			for L := 1; L <= maxLen; L++ {
 				for pos := 0; pos < L; pos++ {
 					if k.Name == "over-long-line" && (L+pos)%3 != 0 {
@@ -396,7 +428,7 @@ func c13cases(run *vlab.Run) []*c13case {
 			if rng.Intn(6) == 0 {
 				for {
 					k := c13classes[rng.Intn(len(c13classes))]
-					if (k.ModeOK == "both" || k.ModeOK == v.mode) && k.Name != "over-long-line" {
+					if (k.ModeOK == "both" || k.ModeOK == v.mode) && k.Name != "over-long-line" && !(strings.HasPrefix(k.Name, "addr-ipv6") && (v.layer != "engine" || v.scan == "generic")) {
 						class = k.Name
 						break
 					}
